@@ -7,6 +7,8 @@ import (
 	"context"
 	"encoding/hex"
 	"fmt"
+	"github.com/cosmos/cosmos-sdk/x/params"
+	paramproposal "github.com/cosmos/cosmos-sdk/x/params/types/proposal"
 	"math/big"
 	"sort"
 	"strconv"
@@ -682,7 +684,11 @@ func (w *World) exec(line string) Result {
 		if err := p.Validate(); err != nil {
 			return Result{Line: "err", Detail: err.Error()}
 		}
-		if err := w.OK.SetParams(w.at(), p); err != nil {
+		am := w.A.LegacyAmino()
+		if err := w.govParams(otypes.ModuleName, map[string]string{
+			string(otypes.KeyVotePeriod): string(am.MustMarshalJSON(p.VotePeriod)), string(otypes.KeyVoteThreshold): string(am.MustMarshalJSON(p.VoteThreshold)),
+			string(otypes.KeySlashFraction): string(am.MustMarshalJSON(p.SlashFraction)), string(otypes.KeySlashWindow): string(am.MustMarshalJSON(p.SlashWindow)),
+			string(otypes.KeyMaxMissCountPerSlashWindow): string(am.MustMarshalJSON(p.MaxMissCountPerSlashWindow))}); err != nil {
 			return Result{Line: "err", Detail: err.Error()}
 		}
 		return Result{Line: "ok"}
@@ -698,20 +704,27 @@ func (w *World) exec(line string) Result {
 		if err := p.Validate(); err != nil {
 			return Result{Line: "err", Detail: err.Error()}
 		}
-		w.SK.SetParams(w.at(), p)
+		am := w.A.LegacyAmino()
+		if err := w.govParams(stypes.ModuleName, map[string]string{
+			string(stypes.KeyOracleFeePercentage): string(am.MustMarshalJSON(p.OracleFeePercentage)),
+			string(stypes.KeySupportedChains):     string(am.MustMarshalJSON(p.SupportedChains))}); err != nil {
+			return Result{Line: "err", Detail: err.Error()}
+		}
 		return Result{Line: "ok"}
 	case "setprices": // denom:price,denom:price  (governance sets the settlement gas prices)
 		p := w.SK.GetParams(w.at())
 		var dcs sdk.DecCoins
 		for _, kvp := range strings.Split(f[1], ",") {
 			kv := strings.SplitN(kvp, ":", 2)
-			dcs = dcs.Add(sdk.NewDecCoinFromDec(kv[0], decTok(kv[1])))
+			dcs = append(dcs, sdk.NewDecCoinFromDec(kv[0], decTok(kv[1]))) // in the order given: the first configured denomination is the first listed
 		}
 		p.GasPrices = dcs
 		if err := p.Validate(); err != nil {
 			return Result{Line: "err", Detail: err.Error()}
 		}
-		w.SK.SetParams(w.at(), p)
+		if err := w.govParams(stypes.ModuleName, map[string]string{string(stypes.KeyGasPrices): string(w.A.LegacyAmino().MustMarshalJSON(p.GasPrices))}); err != nil {
+			return Result{Line: "err", Detail: err.Error()}
+		}
 		return Result{Line: "ok"}
 	case "setval": // v power bonded(0/1) jailed(0/1) probonoRate|-
 		if f[3] == "x" {
@@ -745,6 +758,28 @@ func (w *World) exec(line string) Result {
 		return w.genesisRoundTrip()
 	}
 	return Result{Line: "bad-op"}
+}
+
+// govParams changes parameters the way governance does: a parameter-change proposal executed by the params module's proposal handler,
+// which writes the module's subspace directly (no keeper method is involved). All changes or none.
+func (w *World) govParams(subspace string, kv map[string]string) error {
+	var keys []string
+	for k := range kv {
+		keys = append(keys, k)
+	}
+	sort.Strings(keys)
+	var changes []paramproposal.ParamChange
+	for _, k := range keys {
+		changes = append(changes, paramproposal.NewParamChange(subspace, k, kv[k]))
+	}
+	ctx := w.at()
+	cctx, write := ctx.CacheContext()
+	h := params.NewParamChangeProposalHandler(w.A.ParamsKeeper)
+	if err := h(cctx, paramproposal.NewParameterChangeProposal("t", "d", changes)); err != nil {
+		return err
+	}
+	write()
+	return nil
 }
 
 // removeVal takes a validator out of the staking module's records, as the end of an unbonding with nothing left delegated does: from then
